@@ -113,12 +113,34 @@ class TLCResult:
             self.error = m.group(1) if m else "tlc exit %d" % rc
 
     def prints(self, tag):
-        """Values printed by the spec as <<"TAG", ...>> tuples; returns the raw text after the tag."""
+        """Values printed by the spec as <<"TAG", ...>> tuples; returns the text after the tag, with the
+        line breaks that TLC's pretty-printer inserts into long tuples removed."""
         res = []
-        pat = '<<"%s", ' % tag
-        for line in self.out.splitlines():
-            if line.startswith(pat) and line.endswith(">>"):
-                res.append(line[len(pat):-2])
+        out = self.out
+        for m in re.finditer(r'<<\s*"%s",' % re.escape(tag), out):
+            i = m.end()
+            depth, j, instr = 1, i, False
+            while j < len(out) and depth > 0:
+                ch = out[j]
+                if instr:
+                    if ch == "\\":
+                        j += 1
+                    elif ch == '"':
+                        instr = False
+                elif ch == '"':
+                    instr = True
+                elif out.startswith("<<", j):
+                    depth += 1
+                    j += 1
+                elif out.startswith(">>", j):
+                    depth -= 1
+                    j += 1
+                j += 1
+            body = out[i:j - 2]
+            if "\n" in body:
+                # re-join wrapped output: newlines only occur between elements, never inside strings
+                body = " ".join(x.strip() for x in body.split("\n"))
+            res.append(body.strip())
         return res
 
     def json_prints(self, tag):
@@ -419,6 +441,8 @@ def tlc_trace(workdir, module, cfg, trace_path, trace_name, timeout=1800, heap="
         parts = [x.strip() for x in body.split(",")]
         v.done = True
         v.lines, v.nbeh, v.drift = int(parts[0]), int(parts[1]), int(parts[2])
+        if len(parts) > 3 and int(parts[3]) != len(v.bads):
+            raise Inconclusive("the trace spec counted %s Layer-P failures but %d were parsed from its output" % (parts[3], len(v.bads)))
     if not v.done:
         raise Inconclusive("trace validation did not reach the end of %s (%s/%s): %s\n%s"
                            % (trace_path, module, cfg, r.error, r.out[-3000:]))
